@@ -225,6 +225,14 @@ def password_cases(env, res):
     wrong = [pw[:i] for i in range(len(pw))] + [pw + b"x", pw + b" ", b" " + pw, pw.upper(), pw.lower(), pw.swapcase(),
                                                 pw + b"\x00", b"\x00" + pw, pw * 2, b"", b"x" * 65536, b"\xff\xfe" + pw,
                                                 pw[:-1] + b"\xc3\x28", pw.replace(b"s", b"S", 1), pw + b"\r\n"]
+    # the password followed by filler at the lengths where a length check done in a narrow type wraps around
+    # (8 / 16 bit), with filler bytes that a padding-tolerant comparison would forgive, and every single-byte change
+    for extra in (1, 2, 7, 8, 255, 256, 257, 512, 65535, 65536, 65537):
+        for fill in (b"x", b"\x00", b" "):
+            wrong.append(pw + fill * extra)
+    wrong += [pw + pw[:1] * 256, pw[:1] * 256 + pw, pw[::-1]]
+    wrong += [pw[:i] + bytes([pw[i] ^ 0x20]) + pw[i + 1:] for i in range(len(pw))]
+    wrong += [pw[:i] + bytes([pw[i] ^ 0x80]) + pw[i + 1:] for i in range(len(pw))]
     for w in wrong:
         u = env.srv.client(auth=False)
         try:
